@@ -21,6 +21,7 @@ import JV.Proofs.JsonParserString
 import JV.Proofs.JsonParserRefine
 import JV.Proofs.JsonParserSoundScalar
 import JV.Proofs.JsonParserSound
+import JV.Proofs.JsonParserSoundNec
 namespace JV.Props.C02
 open JV Spec.Rfc8259
 
@@ -240,7 +241,8 @@ example : accepted (run ⟨8, false, false⟩ [34, 92, 117, 100, 56, 48, 48, 92,
         the two code units arithmetically into some scalar value instead of refusing).
     Where the four characters after `\u` are not hex digits, or a high surrogate escape is followed by something that is not a `\u`
     escape, parser and reference both refuse the text and the scan stops with `true`. A text without any `\u` is anomaly-free
-    (`no_backslash_u_no_anomaly`). -/
+    (`no_backslash_u_no_anomaly`); every text of the grammar is anomaly-free (`value_implies_no_anomaly`), so the predicate
+    excludes exactly the divergent texts (`disagreement_iff_anomaly`). -/
 abbrev NoSurrogateAnomaly (bs : Bytes) : Prop := surrogateOK bs = true
 
 /-- SOUNDNESS for whole documents — every byte string, every nesting of arrays and objects, every escape, every white-space and
@@ -277,6 +279,42 @@ theorem parse_exact_reject (cfg : Cfg) (bs : Bytes) (hc : cfg.comments = false) 
   have := parse_exact cfg bs hc ht hs
   cases ha : accepted (run cfg bs) <;> cases hp : parseText { comments := false, trailingComma := false, maxDepth := cfg.maxDepth } bs <;>
     simp_all
+
+/-- the hypothesis `NoSurrogateAnomaly` is NECESSARY, i.e. it excludes nothing the grammar derives: every text the reference gives a
+    value is anomaly-free (proof: Proofs/JsonParserSoundNec — the scan commutes with every production of the reference) -/
+theorem value_implies_no_anomaly (maxDepth : Nat) (bs : Bytes) (v : JT)
+    (h : parseText { comments := false, trailingComma := false, maxDepth := maxDepth } bs = some v) : NoSurrogateAnomaly bs :=
+  parseText_sOK ⟨maxDepth, false, false⟩ bs v h
+
+/-- CHARACTERISATION without side condition: the texts of the RFC 8259 grammar (within the nesting limit) are exactly the texts
+    the strict parser accepts that have no surrogate anomaly — for every byte string -/
+theorem grammar_iff_accepted_and_no_anomaly (cfg : Cfg) (bs : Bytes) (hc : cfg.comments = false) (ht : cfg.trailingComma = false) :
+    (parseText { comments := false, trailingComma := false, maxDepth := cfg.maxDepth } bs).isSome = true ↔
+      (accepted (run cfg bs) = true ∧ NoSurrogateAnomaly bs) := by
+  constructor
+  · intro h
+    cases hv : parseText { comments := false, trailingComma := false, maxDepth := cfg.maxDepth } bs with
+    | none => simp [hv] at h
+    | some v => exact ⟨(run_complete cfg bs v hv).1, parseText_sOK cfg bs v hv⟩
+  · rintro ⟨h, hs⟩
+    exact (parse_exact cfg bs hc ht hs).1 h
+
+/-- … so the strict parser and the reference DISAGREE on a text exactly when the parser accepts it and it has a surrogate anomaly:
+    the two anomalies are the only divergence, and every anomalous text the parser accepts is a divergence -/
+theorem disagreement_iff_anomaly (cfg : Cfg) (bs : Bytes) (hc : cfg.comments = false) (ht : cfg.trailingComma = false) :
+    (accepted (run cfg bs) = true ∧ parseText { comments := false, trailingComma := false, maxDepth := cfg.maxDepth } bs = none) ↔
+      (accepted (run cfg bs) = true ∧ ¬ NoSurrogateAnomaly bs) := by
+  have hg := grammar_iff_accepted_and_no_anomaly cfg bs hc ht
+  constructor
+  · rintro ⟨ha, hn⟩
+    refine ⟨ha, fun hs => ?_⟩
+    have := hg.2 ⟨ha, hs⟩
+    rw [hn] at this; cases this
+  · rintro ⟨ha, hs⟩
+    refine ⟨ha, ?_⟩
+    cases hv : parseText { comments := false, trailingComma := false, maxDepth := cfg.maxDepth } bs with
+    | none => rfl
+    | some v => exact absurd (hg.1 (by simp [hv])).2 hs
 
 /-- a text in which no backslash is followed by `u` has no surrogate anomaly (so `parse_sound` covers every document whose
     strings use only plain characters, raw UTF-8 and the eight two-character escapes) -/
